@@ -26,6 +26,13 @@ add("C19", "pure", "exploration",
     "Trusts unicode/utf8 of the Go standard library for the validity and class predicates; purity judged by repeated calls.",
     "DESIGN.md section 3, C19")
 
+add("C09", "pure", "exploration",
+    "property-based testing (rapid) against an independent reference interpreter of the template/Sprintf language; exhaustive small-scope enumeration; native go fuzz targets in thorough",
+    "Generated trees of snippet constructors are rendered through the real SnippetWriter and through a reference interpreter written from the statement; "
+    "output must match (with three stated leniencies) and panic/no-panic must agree. All formats up to a length bound over a 6-symbol alphabet are enumerated exhaustively.",
+    "Trusts the harness reference interpreter (about 120 lines); Go-nil snippets, surplus Sprintf arguments and invalid UTF-8 formats are not generated.",
+    "DESIGN.md section 3, C09")
+
 ALL = ["C%02d" % i for i in range(1, 21)]
 
 def main():
